@@ -773,3 +773,152 @@ func c13MethodsOfSite(site ssa.CallInstruction, depth int) ([]string, bool) {
 func c13MethodsOfParam(p *ssa.Parameter, depth int) ([]string, bool) {
 	return nil, false
 }
+
+// ---------- facts through boolean variables ----------
+
+// c13CondClass classifies an atomic (non-phi, non-negation) boolean value:
+// does its being true / false imply the fact?
+type c13CondClass func(cond ssa.Value) (trueImplies, falseImplies bool)
+
+// c13FactEdgesOfConds returns the edges of fn on which the fact is known,
+// for conditions tested directly and for conditions first stored in boolean
+// variables (`ok := a || b; if !ok {…}` — SSA: an If on a phi of booleans):
+// an If's edge counts when the truth value it stands for implies the fact
+// through every incoming value of the phi (a constant incoming value counts
+// when the edge it arrives on already lies behind the fact).
+func c13FactEdgesOfConds(fn *ssa.Function, classify c13CondClass) []Edge {
+	set := map[Edge]bool{}
+	list := func() []Edge {
+		var out []Edge
+		for e := range set {
+			out = append(out, e)
+		}
+		return out
+	}
+	behind := func(e Edge) bool {
+		if set[e] {
+			return true
+		}
+		if len(set) == 0 {
+			return false
+		}
+		return !reach(fn.Blocks[0], 0, e.From.Instrs[len(e.From.Instrs)-1], newCut().Edges(list()...))
+	}
+	var implies func(v ssa.Value, truth bool, depth int) bool
+	implies = func(v ssa.Value, truth bool, depth int) bool {
+		if depth > 6 {
+			return false
+		}
+		switch u := v.(type) {
+		case *ssa.UnOp:
+			if u.Op == token.NOT {
+				return implies(u.X, !truth, depth+1)
+			}
+		case *ssa.Const:
+			if u.Value != nil && u.Value.Kind() == constant.Bool {
+				return constant.BoolVal(u.Value) != truth // cannot have that truth value here
+			}
+		case *ssa.Phi:
+			for i, e := range u.Edges {
+				if implies(e, truth, depth+1) {
+					continue
+				}
+				if !behind(Edge{u.Block().Preds[i], u.Block()}) {
+					return false
+				}
+			}
+			return true
+		}
+		t, f := classify(v)
+		if truth {
+			return t
+		}
+		return f
+	}
+	for round := 0; round < 4; round++ {
+		n := len(set)
+		for _, i := range Ifs(fn) {
+			cond, t, f := ifEdges(i)
+			if implies(cond, true, 0) {
+				set[t] = true
+			}
+			if implies(cond, false, 0) {
+				set[f] = true
+			}
+		}
+		if len(set) == n {
+			break
+		}
+	}
+	out := list()
+	sort.Slice(out, func(i, j int) bool {
+		if out[i].From.Index != out[j].From.Index {
+			return out[i].From.Index < out[j].From.Index
+		}
+		return out[i].To.Index < out[j].To.Index
+	})
+	return out
+}
+
+// c13CmpNorm: BinOp comparison with the operand in `left` on the left side
+// (operator mirrored when it was on the right); ok=false if neither side is.
+func c13CmpNorm(v ssa.Value, left map[ssa.Value]bool) (op token.Token, other ssa.Value, ok bool) {
+	bo, isBin := v.(*ssa.BinOp)
+	if !isBin {
+		return 0, nil, false
+	}
+	switch {
+	case left[bo.X]:
+		return bo.Op, bo.Y, true
+	case left[bo.Y]:
+		m := map[token.Token]token.Token{token.LSS: token.GTR, token.GTR: token.LSS, token.LEQ: token.GEQ, token.GEQ: token.LEQ, token.EQL: token.EQL, token.NEQ: token.NEQ}
+		if o, known := m[bo.Op]; known {
+			return o, bo.X, true
+		}
+	}
+	return 0, nil, false
+}
+
+// c13EmptyStringClass: cond says `s == ""` (true-implies) / `s != ""`
+// (false-implies) for s in vals, also via len(s) comparisons with 0/1.
+func c13EmptyStringClass(vals map[ssa.Value]bool) c13CondClass {
+	return func(cond ssa.Value) (bool, bool) {
+		bo, ok := cond.(*ssa.BinOp)
+		if !ok {
+			return false, false
+		}
+		if ln, isLen := bo.X.(*ssa.Call); isLen && CalleeName(ln) == "builtin:len" && vals[ln.Call.Args[0]] {
+			k, isC := c13ConstInt(bo.Y)
+			if !isC {
+				return false, false
+			}
+			switch {
+			case bo.Op == token.EQL && k == 0, bo.Op == token.LSS && k == 1, bo.Op == token.LEQ && k == 0:
+				return true, false
+			case bo.Op == token.NEQ && k == 0, bo.Op == token.GTR && k == 0, bo.Op == token.GEQ && k == 1:
+				return false, true
+			}
+			return false, false
+		}
+		op, other, isCmp := c13CmpNorm(cond, vals)
+		if !isCmp {
+			return false, false
+		}
+		if s, isStr := constString(other); isStr && s == "" {
+			return op == token.EQL, op == token.NEQ
+		}
+		return false, false
+	}
+}
+
+// c13OrClass: the fact holds if any of the classes says so.
+func c13OrClass(cs ...c13CondClass) c13CondClass {
+	return func(cond ssa.Value) (bool, bool) {
+		t, f := false, false
+		for _, c := range cs {
+			a, b := c(cond)
+			t, f = t || a, f || b
+		}
+		return t, f
+	}
+}
